@@ -652,3 +652,8 @@ def run(ck):
     from .c13 import rule_accessors
     ck.attempt(rule_accessors, rid="C05.R8")
     ck.attempt(rule_holders)
+    # "their true delivered energy, the previous period's actual rates": what an EV reports is what its battery returned for this very
+    # pilot on every path through EV.charge (shared with C02)
+    from .c02 import rule_same_value
+    ck.attempt(rule_same_value, rid="C05.R11")
+
